@@ -44,6 +44,7 @@ MESHES = [
     ("cube", {"n": 2}),
     ("cap", {}),
     ("cap", {"n": 4, "south_face": False}),
+    ("cap", {"n": 5, "south_face": False, "ring_lats": [89.98, 80.0]}),
     ("ico", {}),
     ("two", {}),
 ]
@@ -65,6 +66,9 @@ INDIRECT = [
     {"via": "ball_tree", "coords": "nodes"},
     {"via": "bbox", "element": "edge centers"},
     {"via": "bbox", "element": "face centers"},
+    {"via": "bbox_am", "element": "nodes"},
+    {"via": "bbox_am", "element": "face centers"},
+    {"via": "bbox_am", "element": "edge centers"},
     {"via": "edge_node_distances"},
     {"via": "edge_face_distances"},
     {"via": "dual"},
@@ -79,7 +83,10 @@ INDIRECT = [
 
 def gen_source(rng):
     if rng.random() < 0.2:
-        return dict(rng.choice(FILES))
+        f = dict(rng.choice(FILES))
+        if rng.random() < 0.3:
+            f["twice"] = True
+        return f
     name, params = rng.choice(MESHES)
     special = name in ("cap",) or params.get("lon0") in (-180.0, -179.9995) or params.get("lon_c") == 0.0005
     spec = {"kind": "mesh", "mesh": name, "params": params, "variant": rng.choice([0, 1, 2, 3]), "jitter": 0.0 if special else rng.choice([0.0, 0.3])}
@@ -223,6 +230,9 @@ class Coords(Profile):
             g.get_ball_tree(coordinates=op["coords"])
         elif via == "bbox":
             g.subset.bounding_box((-170.0, 175.0), (-80.0, 85.0), element=op["element"])
+        elif via == "bbox_am":
+            # a box given with descending longitudes spans the antimeridian
+            g.subset.bounding_box((150.0, -150.0), (-85.0, 88.0), element=op["element"])
         elif via == "edge_node_distances":
             g.edge_node_distances
         elif via == "edge_face_distances":
